@@ -158,15 +158,37 @@ Definition pump_step_unfixed (plimit : N) (st : lw * list dframe) (chunk : bytes
 Definition pump_unfixed (cap plimit : N) (chunks : list bytes) : lw * list dframe :=
   fold_left (pump_step_unfixed plimit) chunks (lw_new cap, []).
 
-(* every appended chunk gets its frame (`if preview.is_empty() && artifacts.is_none() { continue; }`;
-   appends do not fail in the model) *)
-Definition pump_step (plimit : N) (st : lw * list dframe) (chunk : bytes) : lw * list dframe :=
+(* since the repair of S17 every appended chunk gets its frame (`if preview.is_empty() &&
+   artifacts.is_none() { continue; }`; appends do not fail in the model).
+   Before the repair of S20 every read was decoded on its own: *)
+Definition pump_step_perchunk (plimit : N) (st : lw * list dframe) (chunk : bytes) : lw * list dframe :=
   let '(w1, i) := lw_append (fst st) chunk in
   let '(pv, _, _) := truncate_utf8 chunk (N.min plimit OUTPUT_EVENT_MAX_BYTES) in
   (w1, snd st ++ [{| df_preview := pv; df_info := i |}]).
 
+Definition pump_perchunk (cap plimit : N) (chunks : list bytes) : lw * list dframe :=
+  fold_left (pump_step_perchunk plimit) chunks (lw_new cap, []).
+
+(* S20 repaired: the bytes of a character the previous read left incomplete are carried over and shown,
+   whole, with the next read: (text to decode, new carry) *)
+Definition pump_text (carry chunk : bytes) : bytes * bytes :=
+  let text := carry ++ chunk in
+  let keep := nlen text - incomplete_tail text in
+  (take keep text, drop keep text).
+
+Record pst := { ps_w : lw; ps_carry : bytes; ps_frames : list dframe }.
+
+Definition pump_step (plimit : N) (st : pst) (chunk : bytes) : pst :=
+  let '(w1, i) := lw_append (ps_w st) chunk in
+  let '(text, carry') := pump_text (ps_carry st) chunk in
+  let '(pv, _, _) := truncate_utf8 text (N.min plimit OUTPUT_EVENT_MAX_BYTES) in
+  {| ps_w := w1; ps_carry := carry'; ps_frames := ps_frames st ++ [{| df_preview := pv; df_info := i |}] |}.
+
+Definition pump_run (cap plimit : N) (chunks : list bytes) : pst :=
+  fold_left (pump_step plimit) chunks {| ps_w := lw_new cap; ps_carry := []; ps_frames := [] |}.
+
 Definition pump (cap plimit : N) (chunks : list bytes) : lw * list dframe :=
-  fold_left (pump_step plimit) chunks (lw_new cap, []).
+  let s := pump_run cap plimit chunks in (ps_w s, ps_frames s).
 
 (* ================= capture_stream (foreground shell tool) ================= *)
 Record cs := {
